@@ -35,8 +35,6 @@ struct Ctx<'a, T: CloneStableDeref<Target = [u8]> + Debug> {
     /// expected window of `r` (and of `m`) after the operation
     off: usize,
     len: usize,
-    /// `m` was emptied (EndianSlice::empty drops the position: compare lengths only)
-    m_emptied: bool,
 }
 
 /// I(x) at the expected window + one arbitrary byte
@@ -95,9 +93,8 @@ fn s_empty<T: CloneStableDeref<Target = [u8]> + Debug>(c: &mut Ctx<'_, T>) {
     c.r.empty();
     c.m.empty();
     assert!(c.r.is_empty() && c.m.is_empty());
-    // EndianReader::empty is truncate(0): the position is kept
+    // both readers keep the position: empty() is truncate(0)
     c.len = 0;
-    c.m_emptied = true;
 }
 fn s_read_u32<T: CloneStableDeref<Target = [u8]> + Debug>(c: &mut Ctx<'_, T>) {
     let a = c.r.read_u32();
@@ -164,6 +161,19 @@ fn s_ids<T: CloneStableDeref<Target = [u8]> + Debug>(c: &mut Ctx<'_, T>) {
     let id = c.r.offset_id();
     assert!(c.base.lookup_offset_id(id) == Some(c.off));
     assert!(c.r.lookup_offset_id(id) == Some(0));
+    // an id taken at EVERY position p in 0..=len of the window -- including exactly its end (p == len) and the end of
+    // the section (off + p == buffer length) -- maps back to p through the window and to off + p through the section
+    let p: usize = kani::any();
+    kani::assume(p <= c.len);
+    let idp = c.r.range_from(p..).offset_id();
+    assert!(c.r.lookup_offset_id(idp) == Some(p));
+    assert!(c.base.lookup_offset_id(idp) == Some(c.off + p));
+    let end_id = c.r.range_from(c.len..).offset_id();
+    assert!(c.r.lookup_offset_id(end_id) == Some(c.len));
+    let l = c.data.len();
+    assert!(c.base.lookup_offset_id(c.base.range_from(l..).offset_id()) == Some(l));
+    // the borrowed reader reports the same position for the id (ids are addresses in different buffers, positions agree)
+    assert!(c.m.lookup_offset_id(c.m.range_from(p..).offset_id()) == Some(p));
     let x: u64 = kani::any();
     let start = c.r.bytes().as_ptr() as u64;
     match c.r.lookup_offset_id(ReaderOffsetId(x)) {
@@ -207,13 +217,13 @@ macro_rules! step {
             inv(&base, &base, &data, 0, L);
             let r = base.range(s..s + n);
             inv(&r, &base, &data, s, n);
-            let mut c = Ctx { data: &data[..], base, r, m: EndianSlice::new(&data[s..s + n], e), off: s, len: n, m_emptied: false };
+            let mut c = Ctx { data: &data[..], base, r, m: EndianSlice::new(&data[s..s + n], e), off: s, len: n };
             choose!(&mut c, $($f),+);
-            let Ctx { base, r, m, off, len, m_emptied, .. } = c;
+            let Ctx { base, r, m, off, len, .. } = c;
             // I re-established at exactly the expected window; the borrowed reader is at the same window
             inv(&r, &base, &data, off, len);
             assert!(m.len() == len);
-            assert!(m_emptied || m.slice().as_ptr() == data.as_ptr().wrapping_add(off));
+            assert!(m.slice().as_ptr() == data.as_ptr().wrapping_add(off));
             // clone + drop in any order; the section reader may go first
             let cl = r.clone();
             let which: u8 = kani::any();
